@@ -390,6 +390,13 @@ func (b *blob) fetchRange(allData map[region]io.Writer, opts *options) error {
 		return nil, b.fetchRegions(allData, fetched, opts)
 	})
 
+	if err != nil && shared && len(fetched) == 0 && (opts.ctx == nil || opts.ctx.Err() == nil) {
+		// We only joined a fetch led by another caller (our own closure never ran) and that
+		// fetch failed, possibly just because its leader's context was cancelled (background
+		// fetch stopped by a prioritized task). Fetch on our own instead of inheriting the error.
+		return b.fetchRegions(allData, fetched, opts)
+	}
+
 	// When unblocked try to read from cache in case if there were no errors
 	// If we fail reading from cache, fetch from remote registry again
 	if err == nil && shared {
